@@ -1,3 +1,119 @@
 package main
 
-func procDispatch(cmd string, args []string) bool { return false }
+import (
+	"encoding/base64"
+	"encoding/json"
+	"fmt"
+	"os"
+	"os/signal"
+	"strings"
+	"syscall"
+	"time"
+)
+
+// procDispatch implements the helpers of the real-process checks:
+//
+//	hang <marker> [--ignore-int] [--for <duration>] [--ready <file>] [--exit <code>]
+//	     stays alive (default 60s at most) so that the process table can be inspected; the marker in
+//	     argv identifies the run
+//	emit <specfile>   writes the chunks of a JSON spec [{"s":1|2,"d":"<base64>","p":<pause us>}] to stdout/stderr
+//	dumpenv [prefix...]  prints the environment (entries starting with a prefix) as a JSON array and a newline
+//	args <args...>    prints its arguments as a JSON array and a newline
+//	echo <args...>    prints its arguments joined by one space, without a trailing newline
+func procDispatch(cmd string, args []string) bool {
+	switch cmd {
+	case "hang":
+		hang(args)
+	case "emit":
+		emit(args)
+	case "dumpenv":
+		// only the variables whose names start with one of the given prefixes (none given: all)
+		var env []string
+		for _, kv := range os.Environ() {
+			keep := len(args) == 0
+			for _, p := range args {
+				if strings.HasPrefix(kv, p) {
+					keep = true
+				}
+			}
+			if keep {
+				env = append(env, kv)
+			}
+		}
+		b, _ := json.Marshal(env)
+		os.Stdout.Write(append(b, '\n'))
+	case "args":
+		b, _ := json.Marshal(args)
+		os.Stdout.Write(append(b, '\n'))
+	case "echo":
+		os.Stdout.WriteString(strings.Join(args, " "))
+	default:
+		return false
+	}
+	return true
+}
+
+func hang(args []string) {
+	dur := 60 * time.Second
+	exitCode := 0
+	for i := 1; i < len(args); i++ {
+		switch args[i] {
+		case "--ignore-int":
+			signal.Ignore(syscall.SIGINT)
+		case "--for":
+			i++
+			if d, err := time.ParseDuration(args[i]); err == nil {
+				dur = d
+			}
+		case "--exit":
+			i++
+			fmt.Sscan(args[i], &exitCode)
+		case "--ready":
+			i++
+			f, err := os.OpenFile(args[i], os.O_APPEND|os.O_CREATE|os.O_WRONLY, 0o666)
+			if err == nil {
+				fmt.Fprintf(f, "%d\n", os.Getpid())
+				f.Close()
+			}
+		}
+	}
+	time.Sleep(dur)
+	os.Exit(exitCode)
+}
+
+type chunk struct {
+	S int    `json:"s"`
+	D string `json:"d"`
+	P int    `json:"p"`
+}
+
+func emit(args []string) {
+	if len(args) < 1 {
+		os.Exit(2)
+	}
+	b, err := os.ReadFile(args[0])
+	if err != nil {
+		os.Exit(3)
+	}
+	var spec []chunk
+	if err := json.Unmarshal(b, &spec); err != nil {
+		os.Exit(4)
+	}
+	for _, c := range spec {
+		data, _ := base64.StdEncoding.DecodeString(c.D)
+		f := os.Stdout
+		if c.S == 2 {
+			f = os.Stderr
+		}
+		for len(data) > 0 {
+			n, err := f.Write(data)
+			if err != nil {
+				os.Exit(5)
+			}
+			data = data[n:]
+		}
+		if c.P > 0 {
+			time.Sleep(time.Duration(c.P) * time.Microsecond)
+		}
+	}
+}
